@@ -127,13 +127,23 @@ func (c *Conn) OpenWAL() error {
 	}
 	w := &c.DB.Wal
 	if first || !w.Init {
-		// walIndexRecover
-		if err := c.shmLock(2, WalWrite, 1); err != nil {
+		// walIndexRecover. If its locks are busy (LiteFS itself may hold them for a
+		// moment, e.g. while it starts a snapshot) the connection gives up for now and
+		// starts over at the next attempt: it must never go on with an index it has
+		// not recovered, or it would treat a log with committed frames as empty.
+		giveUp := func(err error) error {
+			c.op("close shm (recovery busy)")
+			_ = c.shmf.Close()
+			_ = c.walf.Close()
+			c.shmf, c.walf = nil, nil
 			return err
+		}
+		if err := c.shmLock(2, WalWrite, 1); err != nil {
+			return giveUp(err)
 		}
 		if err := c.shmLock(2, WalCkpt, 2); err != nil {
 			_ = c.shmLock(0, WalWrite, 1)
-			return err
+			return giveUp(err)
 		}
 		for i := uint64(1); i <= 4; i++ {
 			if err := c.shmLock(2, WalRead0+i, 1); err == nil {
